@@ -163,3 +163,59 @@ Proof.
   destruct (fetch_plans s (search_running s)); [|reflexivity].
   cbn [fst]. symmetry. apply aged_out_is_persist.
 Qed.
+
+(* ================= execute.New with a recovery that may fail (R8) ================= *)
+Lemma execute_new_opened budget now stamp maxAge recovery s s' resumed :
+  execute_new budget now stamp maxAge recovery s = Opened s' resumed ->
+  (s', resumed) = select now stamp maxAge recovery s.
+Proof.
+  unfold execute_new. intros H.
+  assert (D : forall o, o = Opened (fst (select now stamp maxAge recovery s)) (snd (select now stamp maxAge recovery s)) ->
+                        o = Opened s' resumed -> (s', resumed) = select now stamp maxAge recovery s).
+  { intros o -> [= <- <-]. now destruct (select now stamp maxAge recovery s). }
+  destruct (negb recovery); [now apply (D _ eq_refl)|].
+  destruct (fetch_plans s (search_running s)) as [plans|]; [|discriminate H].
+  destruct budget as [k|]; [|now apply (D _ eq_refl)].
+  destruct (Nat.leb k (length plans)); [discriminate H|].
+  destruct (Nat.ltb _ _); [discriminate H|now apply (D _ eq_refl)].
+Qed.
+
+Lemma execute_new_refused budget now stamp maxAge recovery s s' :
+  execute_new budget now stamp maxAge recovery s = Refused s' ->
+  recovery = true /\ exists j, s' = crash_during_close j now stamp maxAge s.
+Proof.
+  unfold execute_new. intros H.
+  destruct recovery; cbn [negb] in H; [|discriminate H]. split; [reflexivity|].
+  destruct (fetch_plans s (search_running s)) as [plans|] eqn:Ef.
+  - destruct budget as [k|]; [|discriminate H].
+    destruct (Nat.leb k (length plans)).
+    + injection H as <-. exists 0%nat. reflexivity.
+    + destruct (Nat.ltb _ _); [|discriminate H]. injection H as <-. eexists. reflexivity.
+  - injection H as <-. exists 0%nat. reflexivity.
+Qed.
+
+Lemma execute_new_all_succeed now stamp maxAge recovery s :
+  keys_unique s ->
+  execute_new None now stamp maxAge recovery s =
+  Opened (fst (select now stamp maxAge recovery s)) (snd (select now stamp maxAge recovery s)).
+Proof.
+  intros Hk. unfold execute_new. destruct recovery; cbn [negb]; [|reflexivity].
+  assert (Hnd := keys_unique_pids s Hk).
+  unfold search_running. rewrite (fetch_ok s Hnd) by (intros p Hp; now apply filter_In in Hp). reflexivity.
+Qed.
+
+Lemma new_error_or_complete_recovery :
+  forall (budget : option nat) (now stamp maxAge : Z) (recovery : bool) (s : list plan),
+    (forall s' resumed, execute_new budget now stamp maxAge recovery s = Opened s' resumed ->
+                        (s', resumed) = select now stamp maxAge recovery s) /\
+    (forall s', execute_new budget now stamp maxAge recovery s = Refused s' ->
+                recovery = true /\ exists j, s' = crash_during_close j now stamp maxAge s) /\
+    (budget = None -> keys_unique s ->
+     execute_new budget now stamp maxAge recovery s =
+     Opened (fst (select now stamp maxAge recovery s)) (snd (select now stamp maxAge recovery s))).
+Proof.
+  intros. split; [|split].
+  - intros s' r. apply execute_new_opened.
+  - intros s'. apply execute_new_refused.
+  - intros ->. apply execute_new_all_succeed.
+Qed.
